@@ -15,7 +15,7 @@ Open Scope N_scope.
    represents sg on the variables of e, with no user variable spelled like a converter helper:
    if e has the value v (peval) then the lines the converter appends run without error and leave the value's
    text in the returned atom; no variable other than fresh helpers changes. *)
-From Verif Require Import Facts.C01Facts.
+From Verif Require Import Facts.C01Facts Sem.CallPreserve Facts.SimSamples.
 
 Theorem C01_expression_preserved : forall e sg used s vs s' b v,
   pure e = true ->
@@ -147,3 +147,11 @@ Example C01_loop_sample :
   | _ => False
   end.
 Proof. vm_compute. split; reflexivity. Qed.
+
+(* The hypotheses of the loop theorem are satisfiable and its conclusion is the expected run: a complete source derivation
+   (J), context and name conditions for the program above, and the theorem applied to them (Facts/SimSamples.v). *)
+Example C01_loop_hypotheses_hold :
+  (exists sgF out, J SimSamples.no_calls SimSamples.XS3 (Prog SimSamples.prog3) SimSamples.sg_empty sgF out SN /\
+                   out = bs "0 0" ++ [10] ++ bs "1 1" ++ [10] ++ bs "3 4" ++ [10] ++ bs "4 8" ++ [10] ++ bs "end 8" ++ [10]) /\
+  ctx_ok SimSamples.XS3 SimSamples.sg_empty [] b_init /\ fresh_flags 0 0 SimSamples.XS3 b_init.
+Proof. exact (conj SimSamples.loop_sample_derivation (conj SimSamples.ctx3 SimSamples.fresh3)). Qed.
